@@ -609,7 +609,7 @@ impl<'a> Model<'a> {
                     }
                     Body::Enum(vs) => {
                         for (k, (vn, f)) in vs.iter().enumerate() {
-                            hs(h, vn);
+                            hs(h, crate::ty::vident(vn));
                             for (n, ft) in f.names().iter().zip(self.u.inst_fields(*i, args, k)) {
                                 hs(h, n);
                                 self.th(&ft, h);
